@@ -16,6 +16,7 @@ run P08-sendto-local C03
 run P09-hhmm-order C02 C14
 run P10-sleep-after C09
 run P11-new-closure-before-sendto-closure C01 C03 C06 C07
+run P13-debugf-in-listen-handler C04 C10
 run R01-bcd-digit-arithmetic C12 C02 C05
 run R02-codec-marshal-extract-tagged-byte C01 C05 C18 C04
 run R03-datetime-unmarshal-zero-table C02 C13 C05 C04
